@@ -435,20 +435,31 @@ _mk_uncertain_orientation("rectangle", True)
 
 
 # ---- scenario-level queries return what the per-obstacle answers imply -----------------------------------------------------------
-def _scenario(V):
+def _scenario(V, kinds=("static", "trajectory", "nopred", "phantom", "environment", "setbased")):
     from commonroad.scenario.scenario import Scenario, ScenarioID
 
     sc = Scenario(0.1, ScenarioID.from_benchmark_id("DEU_Muc-1_2_T-1", "2020a"))
     P = lambda n: (V.real(n + "_x", -B, B), V.real(n + "_y", -B, B))  # noqa: E731
     t0 = V.int("t0", 0, 5)
     ps = {k: P(k) for k in ("static", "dyn", "dyn1", "nopred", "ph", "env")}
-    sc.add_objects(StaticObstacle(30, ObstacleType.PARKED_VEHICLE, Rectangle(2.0, 1.0), init_state(0, ps["static"], 0.0)))
-    st1 = st.KSState(time_step=t0 + 1, position=np.array([ps["dyn1"][0], ps["dyn1"][1]]), orientation=0.0, velocity=1.0, steering_angle=0.0)
-    sc.add_objects(DynamicObstacle(31, ObstacleType.CAR, Rectangle(2.0, 1.0), init_state(t0, ps["dyn"], 0.0),
-                                   TrajectoryPrediction(Trajectory(t0 + 1, [st1]), Rectangle(2.0, 1.0))))
-    sc.add_objects(DynamicObstacle(32, ObstacleType.BICYCLE, Circle(0.5), init_state(t0 + 1, ps["nopred"], 0.0)))
-    sc.add_objects(PhantomObstacle(33, SetBasedPrediction(t0, [Occupancy(t0, Circle(1.0, np.array([ps["ph"][0], ps["ph"][1]])))])))
-    sc.add_objects(EnvironmentObstacle(34, ObstacleType.BUILDING, Circle(3.0, np.array([ps["env"][0], ps["env"][1]]))))
+    ps["setbased"] = P("setbased") if "setbased" in kinds else None
+    if "static" in kinds:
+        sc.add_objects(StaticObstacle(30, ObstacleType.PARKED_VEHICLE, Rectangle(2.0, 1.0), init_state(0, ps["static"], 0.0)))
+    if "trajectory" in kinds:
+        st1 = st.KSState(time_step=t0 + 1, position=np.array([ps["dyn1"][0], ps["dyn1"][1]]), orientation=0.0, velocity=1.0, steering_angle=0.0)
+        sc.add_objects(DynamicObstacle(31, ObstacleType.CAR, Rectangle(2.0, 1.0), init_state(t0, ps["dyn"], 0.0),
+                                       TrajectoryPrediction(Trajectory(t0 + 1, [st1]), Rectangle(2.0, 1.0))))
+    if "nopred" in kinds:
+        sc.add_objects(DynamicObstacle(32, ObstacleType.BICYCLE, Circle(0.5), init_state(t0 + 1, ps["nopred"], 0.0)))
+    if "phantom" in kinds:
+        sc.add_objects(PhantomObstacle(33, SetBasedPrediction(t0, [Occupancy(t0, Circle(1.0, np.array([ps["ph"][0], ps["ph"][1]])))])))
+    if "environment" in kinds:
+        sc.add_objects(EnvironmentObstacle(34, ObstacleType.BUILDING, Circle(3.0, np.array([ps["env"][0], ps["env"][1]]))))
+    if "setbased" in kinds:
+        # a dynamic obstacle with a set-based prediction has occupancies but no states after its initial step
+        sb = ps["setbased"]
+        occs = [Occupancy(t0 + 1, Rectangle(2.0, 1.0, np.array([sb[0], sb[1]]))), Occupancy(Interval(t0 + 2, t0 + 3), Circle(1.0, np.array([sb[1], sb[0]])))]
+        sc.add_objects(DynamicObstacle(35, ObstacleType.PEDESTRIAN, Circle(0.5), init_state(t0, sb, 0.0), SetBasedPrediction(t0 + 1, occs)))
     return sc, t0
 
 
@@ -492,12 +503,23 @@ def scenario_occ(V):
                                                          (ty is None or getattr(o, "obstacle_type", None) == ty)))
 
 
-@obligation("C04", "scenario.position-intervals", functions=FS, max_paths={"quick": 6000, "thorough": 30000},
-            bounds="same scenario; symbolic x / y intervals, symbolic query time, role tuples: default / all four roles / each single role")
-def scenario_pos(V):
+def _mk_pos(name, kinds):
+    @obligation("C04", f"scenario.position-intervals.{name}", functions=FS, max_paths={"quick": 6000, "thorough": 30000},
+                bounds=f"scenario with obstacles {kinds}; symbolic x / y intervals, symbolic query time, role tuples: default / all four roles / each single role")
+    def ob(V):
+        scenario_pos(V, kinds)
+
+    return ob
+
+
+_mk_pos("all-roles", ("static", "trajectory", "nopred", "phantom", "environment"))
+_mk_pos("set-based", ("static", "setbased"))
+
+
+def scenario_pos(V, kinds):
     from commonroad.scenario.obstacle import ObstacleRole
 
-    sc, t0 = _scenario(V)
+    sc, t0 = _scenario(V, kinds)
     t = V.int("t", 0, 8)
     x0, y0 = V.real("ix_lo", -B, B), V.real("iy_lo", -B, B)
     ix, iy = Interval(x0, x0 + V.real("ix_len", 0, B)), Interval(y0, y0 + V.real("iy_len", 0, B))
@@ -533,5 +555,5 @@ MUTANTS += [
          old="            if obstacle.state_at_time(time_step) is not None:", new="            if obstacle.state_at_time(time_step) is not None and time_step > obstacle.initial_state.time_step:",
          only="scenario.occupancies"),
     dict(name="position-interval-static-uses-y-twice", target="commonroad.scenario.scenario:Scenario.obstacles_by_position_intervals",
-         old="position_intervals[1].contains(position[1])", new="position_intervals[1].contains(position[0])", only="scenario.position"),
+         old="position_intervals[1].contains(position[1])", new="position_intervals[1].contains(position[0])", only="scenario.position-intervals.all-roles"),
 ]
